@@ -86,6 +86,22 @@ def r21(e: Engine, rep: Report):
             for x in ast.walk(lp.ast.target):
                 if isinstance(x, ast.Name):
                     bound.add(path_of(x, lp.frame))
+        # names derived from the loop variable inside the loop body
+        changed = True
+        while changed:
+            changed = False
+            for s2 in g.of_kind('stmt'):
+                if isinstance(s2.ast, ast.Assign) and any(
+                        sc.kind == 'loop' and any(sc.ast is lp.ast
+                                                  for lp in scans)
+                        for sc in s2.scopes):
+                    t2 = path_of(s2.ast.targets[0], s2.frame)
+                    if t2 and t2 not in bound and any(
+                            path_of(y, s2.frame) in bound
+                            for y in ast.walk(s2.ast.value)
+                            if isinstance(y, ast.Name)):
+                        bound.add(t2)
+                        changed = True
         seen = set()
         for t in g.of_kind('test'):
             a = t.ast
